@@ -50,6 +50,11 @@ CHECKS = {
    text="Runtime monitoring in child processes (one per project x history): 30 (thorough 250) 'fullspec' projects x 3 (thorough 6) histories such as GVIGVIGVIF, GGVIIF, RRRF, FRGIF; validation-failing projects get G/V-only histories. ~700 steps per quick run. Detects cache-served answers that differ from fresh ones, graph growth across passes, serial/identifier drift. Exploration over histories.",
    note="Order-insensitive canonical form of GleeceFlattenedMetadata; iteration orders pinned to canonical through VERIF_ORDER=canon so that C13's order dependence cannot masquerade as a cache defect.",
    ref="DESIGN.md §5 C19"),
+ "C13": dict(
+   technique="byte-comparison monitor under forced iteration orders (hook H1 at the three map/packages.Load sites: all k! permutations for k<=4, seeded shuffles + reversal otherwise, joint shuffles) plus hook-free fresh-process repetitions, engine sweep and date-comment run",
+   text="Runtime monitoring of the real CLI: 10 (thorough 60) multi-controller / multi-file / multi-package projects x ~35-90 runs each; spec and routes bytes of every run are compared with the canonical-order reference; the evidence lists how many distinct orders were actually forced per site (from the hook trace) and how many distinct outputs were seen. Exploration of the order space, exhaustive only for sites with <=4 elements.",
+   note="Assumes the three H1 sites capture the pipeline's iteration-order freedom; hook-free repetitions (Go's own map randomisation) are an independent net for anything else.",
+   ref="DESIGN.md §5 C13, §4 H1"),
  "C15": dict(
    technique="reference-model monitor: brute-force overlap oracle over every route list (bounded-exhaustive + random, permutation re-runs) observing paths.FindConflicts in-process",
    text="Runtime monitoring of the real FindConflicts: every ordered list of <=3 (thorough <=4) entries over 42 route entries plus thousands of large duplicate-heavy random lists are executed and each reported conflict / each unflagged entry is judged by a 12-line overlap model transcribed from the statement; entry identity is tracked by pointer so duplicates are distinguishable. Exploration, not proof: the verdict covers the enumerated and sampled lists only.",
